@@ -702,7 +702,7 @@ def c18_scenarios(tier, seed):
     out.append({"id": "c18-fresh-stale", "mode": "fresh", "k": 20 if tier == "quick" else 100, "stale": True})
     out.append({"id": "c18-fresh-procs", "mode": "fresh", "k": 4 if tier == "quick" else 16, "procs": True})
     out.append({"id": "c18-fresh-makecheck-reused", "mode": "fresh", "k": 12 if tier == "quick" else 100, "reuse": True})
-    out.append({"id": "c18-fresh-parallel", "mode": "fresh", "k": 400 if tier == "quick" else 4000, "parallel": 8})
+    out.append({"id": "c18-fresh-parallel", "mode": "fresh", "k": 1500 if tier == "quick" else 12000, "parallel": 12})
     out.append({"id": "c18-fresh-procs-noautoseed", "mode": "fresh", "k": 4 if tier == "quick" else 16, "procs": True, "noAutoSeed": True})
     return out
 
